@@ -94,7 +94,11 @@ class Gen:
         r = self.r; o = self.objs[i]; k = o['kind']; ty = o['ty']
         typed = k in ('arr', 'lst')
         x = r.random()
-        if x < 0.16: self.op(f'get {i} {self.index()}')
+        if x < 0.05:
+            # sort (Array, Tuple; a List has no Sort: ClassError) — the items of a generated sequence are of one type, so every comparison
+            # answers (a Tuple of mixed types is known finding KF-C12-sort-partial: corpus witness only); assign(x, x): nothing changes
+            self.op(f'sort {i}' if r.random() < 0.7 else f'assignself {i}')
+        elif x < 0.16: self.op(f'get {i} {self.index()}')
         elif x < 0.30:
             # Array/List: a wrong-typed value is refused before the slot is touched; Tuple stores any pointer (not NULL here)
             v = self.val(ty) if r.random() < 0.6 else (self.wrong(ty) if typed else self.val(ty))
@@ -157,7 +161,8 @@ class Gen:
             self.op(f'{"getv" if r.random() < 0.75 else "getk"} {i} {k}')
         elif x < 0.90: self.op(f'resize {i} {r.choice([0, 1, 2, 3, 5, 8, 20, 60])}')
         elif x < 0.93: self.op(f'len {i}')
-        else: self.op(r.choice([f'push {i} i1', f'pop {i}', f'pushat {i} i1 i0', f'popat {i} i0', f'concat {i} i1', f'append {i} i1', f'print {i} 0 Lq |']))
+        else: self.op(r.choice([f'push {i} i1', f'pop {i}', f'pushat {i} i1 i0', f'popat {i} i0', f'concat {i} i1', f'append {i} i1', f'print {i} 0 Lq |',
+                                f'sort {i}', f'assignself {i}']))
 
     def str_op(self, i):
         r = self.r; o = self.objs[i]
@@ -169,9 +174,10 @@ class Gen:
             self.op(f'rem {i} {r.choice([sub(), sub(), sub(), "N", "i3", "p1", "i0", self.val("int"), "p0"])}')
         elif x < 0.42: self.op(f'resize {i} {r.randrange(0, 10)}')
         elif x < 0.58: self.op(f'{r.choice(["concat", "append"])} {i} {r.choice([sub(), sub(), "N", "i3", "p1"])}')
-        elif x < 0.66: self.op(f'assign {i} {r.choice([sub(), sub(), "N", "i3", "p1"])}')
+        elif x < 0.63: self.op(f'assign {i} {r.choice([sub(), sub(), "N", "i3", "p1"])}')
+        elif x < 0.66: self.op(f'assignself {i}')      # the String as its own operand: a no-op on heap, stack and static Strings (fix 744a45f)
         elif x < 0.70: self.op(f'len {i}')
-        elif x < 0.76: self.op(r.choice([f'get {i} i0', f'set {i} i0 sa', f'push {i} sa', f'pop {i}', f'pushat {i} sa i0', f'popat {i} i0']))
+        elif x < 0.76: self.op(r.choice([f'get {i} i0', f'set {i} i0 sa', f'push {i} sa', f'pop {i}', f'pushat {i} sa i0', f'popat {i} i0', f'sort {i}']))
         else:
             # print_to: succeeds, or fails at its very first segment (a later failure is known finding F29)
             pos = r.randrange(0, 4)
@@ -205,7 +211,7 @@ class Gen:
             else: self.op(f'get {i} {self.index()}')
         elif x < 0.8: self.op(f'len {i}')
         elif x < 0.85 and k == 'rng' and o.get('small'): self.op(f'mem {i} i{r.randrange(-3, 12)}')
-        else: self.op(r.choice([f'set {i} i0 i0', f'rem {i} i0', f'push {i} i0', f'pop {i}', f'resize {i} 2', f'assign {i} i3', f'assign {i} N', f'concat {i} i1', f'print {i} 0 Lz |']))
+        else: self.op(r.choice([f'set {i} i0 i0', f'rem {i} i0', f'push {i} i0', f'pop {i}', f'resize {i} 2', f'assign {i} i3', f'assign {i} N', f'concat {i} i1', f'print {i} 0 Lz |', f'sort {i}']))
 
     # ---- containers whose elements are containers (Array / List of Array / List / Table of Int)
     def cval(self):
@@ -244,7 +250,7 @@ class Gen:
         r = self.r
         self.op(r.choice([f'get {i} i0', f'set {i} i0 i1', f'mem {i} i1', f'rem {i} sx', f'push {i} i1', f'pushat {i} i1 i0', f'pop {i}', f'popat {i} i-1',
                           f'resize {i} 3', f'len {i}', f'append {i} sab', f'assign {i} i1', f'assign {i} N', f'concat {i} i1', f'typeof {i}', f'cast {i} Int',
-                          f'cast {i} Table', f'dealloc {i}', f'get {i} N', f'len {i}']))
+                          f'cast {i} Table', f'dealloc {i}', f'get {i} N', f'len {i}', f'sort {i}']))
 
     def misc_op(self, i):
         r = self.r; o = self.objs[i]; k = o['kind']
@@ -262,12 +268,14 @@ class Gen:
         else:
             # every class method on every kind of object: what the type does not implement raises ClassError
             self.op(r.choice([f'get {i} i0', f'set {i} i0 i1', f'mem {i} i1', f'rem {i} i1', f'push {i} i1', f'pop {i}', f'pushat {i} i1 i0',
-                              f'popat {i} i0', f'resize {i} 0', f'len {i}', f'append {i} i1', f'print {i} 0 Lw |']) if k == 'val' else f'len {i}')
+                              f'popat {i} i0', f'resize {i} 0', f'len {i}', f'append {i} i1', f'print {i} 0 Lw |', f'sort {i}', f'assignself {i}'])
+                    if k == 'val' else r.choice([f'len {i}', f'sort {i}', f'assignself {i}']))
 
     def null_op(self):
         r = self.r
         self.op(r.choice(['get N i0', 'set N i0 i1', 'mem N i1', 'rem N sx', 'push N i1', 'pushat N i1 i0', 'pop N', 'popat N i-1', 'resize N 3',
-                          'len N', 'append N sab', 'assign N i1', 'concat N i1', 'typeof N', 'cast N Int', 'cast N Table', 'dealloc N']))
+                          'len N', 'append N sab', 'assign N i1', 'concat N i1', 'typeof N', 'cast N Int', 'cast N Table', 'dealloc N', 'sort N',
+                          'assignself N']))
 
 
 def random_range(r):
@@ -412,11 +420,11 @@ class C12(Spec):
     # UBSan's pointer-overflow check in C mode although no platform misbehaves on it: that one check is switched off (reported).
     harness_flags = ('-fno-sanitize=pointer-overflow',)
     technique = ('Lean 4 proofs over an executable model of the argument validation and mutation order of every fallible container / '
-                 'value operation (index arithmetic on BitVec 64); translator link: the check / mutation order profile of the 64 mirrored C functions '
+                 'value operation (index arithmetic on BitVec 64); translator link: the check / mutation order profile of the 71 mirrored C functions '
                  'and the declaration matrix are regenerated from the sources on every run and are what theorems are stated about; '
                  'white-box differential check of the model against the real library; '
                  'independent reference + before/after dump oracle in C under ASan/UBSan, risky calls probed in a forked child')
-    level_text = ('Theorems over the executable model lean/Cello/Fail.lean (68, no sorry): C12_failure_atomic — for every store of objects (Array, List, '
+    level_text = ('Theorems over the executable model lean/Cello/Fail.lean (no sorry): C12_failure_atomic — for every store of objects (Array, List, '
                   'heap and stack Tuple, Table, Tree, heap/stack/static String, Range, Slice, Zip, plain Int/Plain values), every object and every '
                   'operation outside the territories of the known findings, an operation that raises leaves the observable state of every object '
                   'unchanged (C12_failure_atomic_exact: the very same store, unless the object is a slot-less Table or a Slice); per type '
@@ -435,9 +443,9 @@ class C12(Spec):
                   'C12_bad_magic_call are stated about engine C08\'s model of Type_Of (Cello.Dispatch.typeOfW); C12_unimplemented_class_error derives '
                   'every ClassError-by-dispatch of the model from the declaration matrix generated from the Cello(T, Instance(...)) texts '
                   '(C12_class_error_iff_undeclared: the converse on one object per kind). Source order (translate/g_fail.py -> CelloGen.Fail.profile): '
-                  'C12_source_profile (guards, throw sites, validating calls, element assigns and mutations of 64 functions equal the sequences the '
+                  'C12_source_profile (guards, throw sites, validating calls, element assigns and mutations of 71 functions equal the sequences the '
                   'model was written against), C12_source_checks_precede_mutations (an abstract interpretation of the generated profile: in 49 functions '
-                  'no raising event is reachable after a mutation), C12_source_order_violations (the 15 others: the known findings and five benign '
+                  'no raising event is reachable after a mutation), C12_source_order_violations (the 22 others: the known findings — incl. the six *_Sort_* functions and print_to_with — and five benign '
                   'cases), C12_atomic_where_source_ordered (if the C function an operation mirrors is ordered, the model operation is failure-atomic '
                   'with no known-finding hypothesis). The model is further tied to the C code by executing thousands of valid/invalid '
                   'operation histories on both and comparing result, exception type and a white-box dump after every operation; an independent C '
@@ -445,14 +453,22 @@ class C12(Spec):
                   'as they are, proved as *_refuted theorems on concrete witnesses and listed as known findings; defects repaired by a fix: commit '
                   '(Range_Get step 0 / overflow, String_Rem of a non-String, Table_Get answering every address inside its slot array — '
                   'C12_table_get_slot_address: the key / value object of a slot passed as the key is validated like any other argument) keep their *_refuted theorem as a statement about an explicit OLD '
-                  'variant of the model function (Lemmas/FailOld.lean) next to what the current model does on the same witness.')
+                  'variant of the model function (Lemmas/FailOld.lean) next to what the current model does on the same witness. '
+                  'sort (Array, Tuple): the quicksort of Tuple_Sort_* / Array_Sort_* is modelled with its exchanges (sortItems); C12_sort_completes_outside_kf / '
+                  'C12_array_sort_never_raises: items of one type are always comparable, the sort completes; C12_tuple_sort_refuted: a Tuple of unlike '
+                  'types is left permuted when lt raises (finding KF-C12-sort-partial). assign(x, x): C12_assign_self_noop, with the String guard of fix '
+                  '744a45f read from the source (C12_string_assign_self_guard_source) and the old behaviour refuted (C12_string_assign_self_old_refuted); '
+                  'String_Resize tests the result of realloc before writing through it (fix 63509f2: C12_string_resize_null_test_source on the profile '
+                  'with the CELLO_MEMORY_CHECK regions kept). Undefined behaviour is not "no exception": C12_raises_exactly_<type> carry the hypothesis '
+                  'X.ubTerritory op = false and C12_no_ub_<type> prove that ub is the outcome exactly on that territory (finding foreach-noniter, '
+                  'C12_foreach_noniter_refuted).')
     level_note = ('Trusted: Lean kernel; the hand-written model lean/Cello/Fail.lean (validated by the correspondence, which is testing); harness and '
                   'driver; libc. Not covered: allocation failure (OutOfMemoryError paths), Float/File/Thread objects, iteration of views (C11), '
                   'states reached through a known finding on String-element arrays.')
     rule = ('op files: histories of 150-400 operations over Array/List/Tuple(heap+stack), Table/Tree, String(heap/stack/static), Range/Slice/Zip and '
             'plain Int/Plain objects; about half the operations carry an invalid argument (index one past either end, far out, at the int64 limits, '
             'of the wrong type, NULL; absent or wrong-typed key/value/element; empty pop; unsupported resize; method the type lacks; non-heap target; '
-            'too few / wrong-typed print arguments; dealloc of stack/static/data objects; calls on NULL) and are followed by further valid operations; '
+            'too few / wrong-typed print arguments; dealloc of stack/static/data objects; calls on NULL; sort of a type without Sort) and are followed by further valid operations; sort on Arrays / Tuples of one item type and assign(x, x) on every kind of object are mixed in; '
             'plus an exhaustive index sweep (-n-2..n+2 and int64 limits, sizes 0..4, get/set/pop_at/push_at on the three sequence types) and a '
             'Range/Slice sweep (27 ranges: steps 0, ±1..±3, ±2^62, INT64_MAX, fields at the int64 limits; indices at both ends of [-len, len), '
             '±2^63 and around INT64_MAX/|step| and (INT64_MAX-start)/step; slices with step 0 / ±10^6; rem of Int/Plain/NULL on heap/stack/static '
@@ -477,12 +493,14 @@ class C12(Spec):
                    'not generated (known findings, each with witness corpus/kf_c12_*.ops and a _refuted theorem): wrong-typed / NULL element pushed, '
                    'inserted or concatenated into an Array (F15); print_to failing after its first segment (F29); concat into a List from a source with '
                    'a wrong-typed element; assign into Array/List/Table/Tree from a non-iterable; foreach over an object without Iter (concat/assign from '
-                   'a scalar: NULL instance pointer dereferenced)',
+                   'a scalar: NULL instance pointer dereferenced); sort of a Tuple whose items are not all of one type (KF-C12-sort-partial: a comparison '
+                   'raises after items were exchanged; generated Tuples hold items of one type)',
                    'not constructed (both sides answer bad-op): a Range whose Range_Len itself overflows int64 ((stop-1)-start > INT64_MAX, step '
                    'INT64_MIN, or a length of 2^63): len and get are undefined behaviour there (Rng.get_lenOverflow); mem on a Range with a field '
                    'beyond 10^6 (Range_Mem is modelled without overflow)',
                    'not generated: NULL stored into a Tuple; growing a List of String by resize (creates NULL strings); print_to at a position beyond the '
-                   'end of the sink; nested views; allocation failure')
+                   'end of the sink; nested views; allocation failure (String_Resize under a failing realloc is a proof-level obligation on the '
+                   'source order only); sort / assign(x, x) on containers of containers; assign(x, x) on Plain / Range / Slice / Zip objects')
 
     def cases(self, rng, tier, boost=1):
         quick = tier == 'quick'
